@@ -63,7 +63,14 @@ pub fn prop() -> HistProp {
         mk: |_, _, _| {
             Box::new(C14 { updates: 0, claims: 0, delivered: 0, claimed: 0, balance_change_between_updates: false, change_since_update: false, max_holders: 0 })
         },
-        extra: Some((5, |t| reward_scenario_strategy(&reward_profile(t), cfg_strategy()))),
+        extra: Some((5, |t| {
+            use proptest::strategy::Strategy;
+            proptest::strategy::Union::new_weighted(vec![
+                (5, reward_scenario_strategy(&reward_profile(t), cfg_strategy())),
+                (1, many_accounts_scenario_strategy(&reward_profile(t), cfg_strategy())),
+            ])
+            .boxed()
+        })),
         many_batches: 0,
     }
 }
